@@ -41,7 +41,7 @@ type mcRun struct {
 
 var lastMC = map[string]*mcRun{}
 
-var rePlaceholder = regexp.MustCompile(`^(N|P)_[0-9a-z]+$`)
+var rePlaceholder = regexp.MustCompile(`^(N|P|C)_[0-9a-z]+$`)
 
 // runMC runs an MC module in its own scratch directory and returns the result with the exported JSON lines.
 func runMC(module string, consts map[string]string, timeout time.Duration, workers int) (*mcRun, []string, error) {
@@ -116,8 +116,24 @@ func bindPlaceholders(g *Gen, docs map[string]*Node) {
 		keys = append(keys, k)
 	}
 	sort.Strings(keys)
+	// C_i is the case variant of N_i: bind after the N_ names
+	sort.SliceStable(keys, func(i, j int) bool { return !strings.HasPrefix(keys[i], "C_") && strings.HasPrefix(keys[j], "C_") })
 	for _, k := range keys {
 		if _, bound := g.Names.ToConcrete[k]; bound {
+			continue
+		}
+		if strings.HasPrefix(k, "C_") {
+			base, ok := g.Names.ToConcrete["N_"+k[2:]]
+			if !ok {
+				base = g.concreteName(ncPlain)
+				g.Names.Bind("N_"+k[2:], base)
+			}
+			v := swapCase(base)
+			if v == base {
+				v = base + "X" // no letter to swap: no collision in this instance
+			}
+			g.usedConcrete[v] = true
+			g.Names.Bind(k, v)
 			continue
 		}
 		if strings.HasPrefix(k, "P_") {
@@ -140,8 +156,118 @@ func scenarioCases(family, tier string, seed int64, scratch string) ([]*Case, []
 	switch family {
 	case "analyzer":
 		return analyzerScenarios(tier, seed, scratch)
+	case "flatten":
+		return flattenScenarios(tier, seed, scratch)
 	}
 	return nil, nil
+}
+
+type flattenScenario struct {
+	T    string           `json:"t"`
+	S    string           `json:"s"`
+	H    string           `json:"h"`
+	H2   string           `json:"h2"`
+	C    string           `json:"c"`
+	Docs map[string]*Node `json:"docs"`
+}
+
+func (f *flattenScenario) Key() string { return f.T + "," + f.S + "," + f.H + "," + f.H2 + "," + f.C }
+
+var scenarioFiles = map[string]string{"root": "api/root.json", "aux1": "api/sub/a.json", "aux2": "api/sub/deep/b.json", "aux3": "common/c.json"}
+
+// corpusKeys reads corpus/flatten.txt: scenario keys that every quick run must include (directed corpus, S4).
+func corpusKeys(name string) map[string]bool {
+	out := map[string]bool{}
+	b, err := os.ReadFile(filepath.Join(verifRoot, "corpus", name))
+	if err != nil {
+		return out
+	}
+	for _, l := range strings.Split(string(b), "\n") {
+		l = strings.TrimSpace(l)
+		if l == "" || strings.HasPrefix(l, "#") {
+			continue
+		}
+		out[strings.Fields(l)[0]] = true
+	}
+	return out
+}
+
+func flattenScenarios(tier string, seed int64, scratch string) ([]*Case, []string) {
+	run, lines, err := runMC("MC_FlattenScen", map[string]string{"Export": "TRUE"}, 10*time.Minute, nWorkers())
+	lastMC["flatten"] = run
+	if err != nil {
+		return nil, []string{"MC_FlattenScen: " + err.Error() + "\n" + run.Tail}
+	}
+	if !run.OK {
+		return nil, []string{"MC_FlattenScen did not complete cleanly (invariant " + run.InvViolated + "):\n" + run.Tail}
+	}
+	all := []*flattenScenario{}
+	for _, l := range lines {
+		fs := &flattenScenario{}
+		if e := json.Unmarshal([]byte(l), fs); e != nil || fs.Docs["root"] == nil {
+			return nil, []string{"MC_FlattenScen export not parseable: " + l[:min(len(l), 200)]}
+		}
+		all = append(all, fs)
+	}
+	sort.Slice(all, func(i, j int) bool { return all[i].Key() < all[j].Key() })
+	pickN := 140
+	if tier == "thorough" {
+		pickN = 2500
+	}
+	if v := os.Getenv("VERIF_SCEN"); v != "" {
+		if n, e := strconv.Atoi(v); e == nil {
+			pickN = n
+		}
+	}
+	corpus := corpusKeys("flatten.txt")
+	r := rand.New(rand.NewSource(seed + 77))
+	perm := r.Perm(len(all))
+	chosen := []*flattenScenario{}
+	taken := map[int]bool{}
+	for i, fs := range all {
+		if corpus[fs.Key()] {
+			chosen = append(chosen, fs)
+			taken[i] = true
+		}
+	}
+	nc := len(chosen)
+	for _, i := range perm {
+		if len(chosen)-nc >= pickN {
+			break
+		}
+		if !taken[i] {
+			chosen = append(chosen, all[i])
+		}
+	}
+	cases := []*Case{}
+	errs := []string{}
+	for i, fs := range chosen {
+		g := NewGen(seed*104729+int64(i), GenOpts{PlainNames: i%3 == 1})
+		b := &Bundle{Docs: fs.Docs, Files: map[string]string{}}
+		for id := range fs.Docs {
+			b.Files[id] = scenarioFiles[id]
+		}
+		b.Feat = Features{NAux: len(fs.Docs) - 1, Collision: fs.C != "none",
+			Anon:      fs.T == "anonprop" || fs.T == "anonitems" || fs.T == "anonallof",
+			SharedPtr: fs.T == "sharedparam" || fs.T == "sharedresp"}
+		bindPlaceholders(g, b.Docs)
+		for _, cc := range g.Names.ToConcrete {
+			if !safeKeyRe.MatchString(cc) && !strings.HasPrefix(cc, "/") {
+				b.Feat.NonPlain = true
+			}
+		}
+		c := &Case{Tid: fmt.Sprintf("s%d", i), Source: "tlc", Seed: seed, Bundle: b, Names: g.Names.ToConcrete, RefStyle: 0, Note: fs.Key()}
+		if err := c.Materialize(filepath.Join(scratch, c.Tid)); err != nil {
+			errs = append(errs, err.Error())
+			continue
+		}
+		if err := c.RoundTrip(); err != nil {
+			errs = append(errs, err.Error())
+			continue
+		}
+		cases = append(cases, c)
+	}
+	return cases, errs
 }
 
 func analyzerScenarios(tier string, seed int64, scratch string) ([]*Case, []string) {
